@@ -8,7 +8,7 @@ def parseKind (k aux : String) : Option Kind :=
   match k with
   | "conforming" => some .conforming
   | "unknown_msgtype" => some .unknownMsgType
-  | "required_missing" => some (.requiredMissing (aux == "grp"))
+  | "required_missing" => some (.requiredMissing (aux == "grp" || aux == "grptail"))
   | "not_defined_for_type" => some .notDefinedForType
   | "not_in_dictionary" => some .notInDictionary
   | "empty_value" => some .emptyValue
@@ -43,7 +43,7 @@ def validMonStep (s : ValidSt) (w : List String) : ValidSt × String :=
       | some app =>
         match parseBits bits, parseKind k aux, parsePMsg hex h b t, parseObs obs with
         | some st, some kind, some m, some o =>
-          verdict (monValid app s.tr st kind ((tag.toNat?).getD 0) m o)
+          verdict (monValid app s.tr st kind ((tag.toNat?).getD 0) m o (if aux == "grptail" then ",grptail" else ""))
         | _, _, _, _ => "bad-op")
   | _ => (s, "bad-op")
 
